@@ -302,6 +302,10 @@ def site_bodies():
         "captured-bool-and": [("if", ("bin", "&&", V("cb"), ("bin", ">", cv, I(0))), [("return", I(1))], None), ("return", I(0))],
         "captured-callee": [("return", call("cf", cv))],
         "captured-callee-only": [("return", call("cf", I(3)))],
+        # captured names whose ONLY use is inside an expression statement (a call made for its effect)
+        "callee-stmt-only": [("expr", call("cf", I(3))), ("return", I(0))],
+        "arg-stmt-only": [("expr", call("cf", cv)), ("return", I(0))],
+        "receiver-stmt-only": [("expr", ("method", V("lc"), "push", [I(9)])), ("return", I(0))],
         "is-operand": [("if", ("is", cv, cv), [("return", I(1))], None), ("return", I(0))],
         "map-key-literal": [asg("m", ("maplit", "int", "int", [(cv, I(5))])), ("return", ("method", V("m"), "len", []))],
         "typed-assign-rhs": [asg("t", cv, "int"), ("return", V("t"))],
